@@ -7,7 +7,7 @@ from vf.runner import Acc, filler
 PROPERTY = "C10"
 CONCUR_FILES = ('bits/bips/bip39/__init__.py',)
 # (thread a, thread b), warm-up: indices into seq_ops() - the ordinary single-case checks run concurrently (vf/concur.py)
-CONCUR_SCEN = [((0, 3), ()), ((1, 1), (0,)), ((3, 4), (1,)), ((8, 9), ())]
+CONCUR_SCEN = [((0, 3), ()), ((1, 1), (0,)), ((3, 4), (1,)), ((8, 9), ()), ((0, 3, 1), ())]   # the last one: three threads
 LEVEL = "exploration"
 RULE = ("bijection: for each of the five entropy lengths, entropies {zeros, ones, EVERY single-bit pattern, 01.., 80.., 8 fillers} "
         "-> word count, all words in list, to_entropy inverse, equals reference; EVERY byte length 0..40 other than the five must "
@@ -206,7 +206,7 @@ def jobs(tier, seed):
     from vf.runner import seq_jobs
     js += seq_jobs(3, weight=3)
     from vf.runner import concur_jobs
-    js += concur_jobs(len(CONCUR_SCEN))
+    js += concur_jobs(len(CONCUR_SCEN) - (1 if tier == "quick" else 0))
     return js
 
 
@@ -218,7 +218,7 @@ def run_job(job):
         return run_concur_job(job, scens, run_case, PROPERTY, CONCUR_FILES)
     if job["part"] == "seq":
         from vf.runner import run_seq_job
-        return run_seq_job(job, seq_ops(job), run_case)
+        return run_seq_job(job, seq_ops(job), run_case, depth=3 if job["tier"] == "quick" else 4)
     acc = Acc(job)
     seed, part = job["seed"], job["part"]
     if part == "bij":
